@@ -224,8 +224,10 @@ def check_direct_vs_cached(idx: Index, rep: Report) -> None:
         r.fail("accessor", Finding("C29.R3", init.fq, "accessor-mismatch", "cached and direct lookup no longer obtain symbol names through the same accessor", init.loc))
     # presence predicate in the cache construction: `is not None`, never truthiness
     conds: list[ast.AST] = []
+    # locals bound to the accessor's result (`name = get_name_if_symbol(op)` followed by `if name is not None`)
+    acc_names = {s_.targets[0].id for s_ in ast.walk(init.node) if isinstance(s_, ast.Assign) and len(s_.targets) == 1 and isinstance(s_.targets[0], ast.Name) and isinstance(s_.value, ast.Call) and call_attr(s_.value) == "get_name_if_symbol"}
     for n in ast.walk(init.node):
-        if isinstance(n, ast.If) and any(call_attr(c) == "get_name_if_symbol" for c in calls_in(n.test, local=False)):
+        if isinstance(n, ast.If) and (any(call_attr(c) == "get_name_if_symbol" for c in calls_in(n.test, local=False)) or any(isinstance(x, ast.Name) and x.id in acc_names for x in ast.walk(n.test))):
             conds.append(n.test)
         if isinstance(n, ast.comprehension):
             for c in n.ifs:
@@ -234,7 +236,13 @@ def check_direct_vs_cached(idx: Index, rep: Report) -> None:
     if not conds:
         raise AnalysisError(f"{init.fq}: filter on get_name_if_symbol not found")
     for c in conds:
-        is_none_test = isinstance(c, ast.Compare) and isinstance(c.ops[0], ast.IsNot) and isinstance(c.comparators[0], ast.Constant) and c.comparators[0].value is None
+        c0 = c
+        while isinstance(c0, ast.UnaryOp) and isinstance(c0.op, ast.Not):
+            c0 = c0.operand
+        is_none_test = isinstance(c0, ast.Compare) and len(c0.ops) == 1 and isinstance(c0.ops[0], (ast.IsNot, ast.Is)) and isinstance(c0.comparators[0], ast.Constant) and c0.comparators[0].value is None
+        truthy = isinstance(c0, (ast.Name, ast.NamedExpr, ast.Call))
+        if not is_none_test and not truthy:
+            raise AnalysisError(f"{init.fq}: presence test `{unparse(c)}` of the cached table not understood")
         if is_none_test:
             r.ok("presence", f"{init.loc} entries kept iff name is not None")
         else:
